@@ -33,19 +33,19 @@ func ForFormat(format string) string {
 
 // Outcome is everything observable from one Load call except the stream.
 type Outcome struct {
-	OK      bool   `json:"ok"`
-	MDNil   bool   `json:"md_nil"`
-	Format  string `json:"format"`
-	W       uint32 `json:"w"`
-	H       uint32 `json:"h"`
-	Bits    uint32 `json:"bits"`
-	ICC     []byte `json:"-"`
-	ICCLen  int    `json:"icc_len"`
-	ICCNil  bool   `json:"icc_nil"`
-	ICCErr  string `json:"icc_err"`
-	Err     string `json:"err"`
-	Panic   string `json:"panic"`
-	Stream  io.Reader `json:"-"`
+	OK     bool      `json:"ok"`
+	MDNil  bool      `json:"md_nil"`
+	Format string    `json:"format"`
+	W      uint32    `json:"w"`
+	H      uint32    `json:"h"`
+	Bits   uint32    `json:"bits"`
+	ICC    []byte    `json:"-"`
+	ICCLen int       `json:"icc_len"`
+	ICCNil bool      `json:"icc_nil"`
+	ICCErr string    `json:"icc_err"`
+	Err    string    `json:"err"`
+	Panic  string    `json:"panic"`
+	Stream io.Reader `json:"-"`
 }
 
 // Run calls the named loader, converting an escaping panic into Outcome.Panic.
